@@ -29,7 +29,7 @@ func init() {
 				if strings.HasPrefix(cal.Name(), "nfaFallback") {
 					return true
 				}
-				if cal.Signature.Recv() != nil && strings.HasSuffix(cal.Signature.Recv().Type().String(), "nfa.PikeVM") {
+				if cal.Signature.Recv() != nil && nfaEngineMethod(cal) {
 					return true
 				}
 				return false
